@@ -164,3 +164,112 @@ Proof. simpl. split; [repeat constructor; simpl; lia|]. vm_compute. repeat split
 
 Example ex_total_map_hyp : reachable (fst (run (init true) ex_hist)).
 Proof. exists true, ex_hist. split; [exact ex_hist_ok|reflexivity]. Qed.
+
+(* ------------------------------------------------------------------ len, iteration, `in` *)
+Lemma upsert_keys_iff {A} (k : Z) (v : A) l j : In j (map fst (upsert k v l)) <-> j = k \/ In j (map fst l).
+Proof.
+  split; [apply upsert_keys_incl|]. induction l as [|[k' v'] t IH]; simpl.
+  - intros [H|[]]. now left.
+  - destruct (k =? k') eqn:E; simpl.
+    + apply Z.eqb_eq in E. subst. intros [H|[H|H]]; auto.
+    + intros [H|[H|H]]; auto.
+Qed.
+
+(* dense: len = len(container), iteration yields exactly the rows the reads return (= as_array).
+   sparse: `in`, len and iteration speak about the keys written since creation / the last clear (by design:
+   "sparse attributes allow to iterate only over non-default elements"); the dense `in` is python's fallback to
+   iteration (membership among the *values*) and is not comparable. *)
+Theorem len_iter_contains : forall s a at_, reachable s -> lookup a (attrs s) = Some at_ ->
+  match ast at_ with
+  | Dense ne st rows =>
+      snd (step s (Len a)) = ONat (sn s) /\
+      snd (step s (Iter a)) = ORows rows /\ snd (step s (AsArray a)) = ORows rows /\
+      Z.of_nat (length rows) = sn s /\
+      forall k, 0 <= k < sn s -> rd s a k = Some (nth (Z.to_nat k) rows [])
+  | Sparse m =>
+      NoDup (map fst m) /\
+      snd (step s (Len a)) = ONat (Z.of_nat (length m)) /\
+      snd (step s (Iter a)) = OKeys (map fst m) /\
+      (forall k, snd (step s (Contains a k)) = OBool (match lookup k m with Some _ => true | None => false end)) /\
+      (forall k v s', step s (SetItem a k v) = (s', OOk) ->
+                      exists at' m', lookup a (attrs s') = Some at' /\ ast at' = Sparse m' /\
+                                     forall j, In j (map fst m') <-> j = k \/ In j (map fst m)) /\
+      (forall s', step s (ClearAttr a) = (s', OOk) -> exists at', lookup a (attrs s') = Some at' /\ ast at' = Sparse [])
+  end.
+Proof.
+  intros s a at_ Hr La. pose proof (reachable_inv s Hr) as Hi. pose proof Hi as [_ [H1 _]].
+  pose proof (H1 _ _ La) as Ok. destruct (ast at_) as [m|ne st rows] eqn:St.
+  - pose proof Ok as [_ [_ A3]]. rewrite St in A3. destruct A3 as [ND _].
+    split; [exact ND|]. unfold step. simpl. change (attrs (tick s)) with (attrs s). rewrite La.
+    unfold len_attr, do_contains. simpl. rewrite La, St. repeat split; auto.
+    + intros k v s' E. unfold do_set in E. change (attrs (tick s)) with (attrs s) in E. rewrite La, St in E.
+      destruct (sparse_validate (aty at_) (asz at_) v) as [e|[[|] l]]; inversion E; subst; simpl;
+        rewrite lookup_put_same; eexists; eexists; (split; [reflexivity|]); (split; [reflexivity|]);
+          intros j; apply upsert_keys_iff.
+    + intros s' E. unfold do_clear_attr in E. change (attrs (tick s)) with (attrs s) in E. rewrite La, St in E.
+      inversion E; subst. simpl. rewrite lookup_put_same. eauto.
+  - pose proof Ok as [_ [_ B]]. rewrite St in B. destruct B as [B1 [B2 _]]. subst ne.
+    unfold step. simpl. change (attrs (tick s)) with (attrs s). rewrite La. unfold len_attr, do_as_array.
+    change (attrs (tick s)) with (attrs s). rewrite La, St. simpl. repeat split; auto.
+    intros k Hk. unfold rd. rewrite La. erewrite rd_dense; eauto.
+Qed.
+
+(* ------------------------------------------------------------------ create_attribute(size=...) *)
+(* the documented use - size = current length of the container - is the plain dense creation, to which every theorem
+   applies; any other size creates an attribute that is `size - len` off, and growth keeps exactly that offset *)
+Theorem create_sized : forall s a t k d size,
+  (size = sn s -> step s (CreateSized a t k d size) = step s (Create a t k true d)) /\
+  (forall s', step s (CreateSized a t k d size) = (s', OOk) -> lookup a (attrs s) = None ->
+              exists at' st rows, lookup a (attrs s') = Some at' /\ ast at' = Dense size st rows /\
+                                  length rows = Z.to_nat size) /\
+  (forall at_ ne st rows added, ast at_ = Dense ne st rows ->
+      match ast (expand_attr (hp s) (clock s) added at_) with
+      | Dense ne' _ rows' => ne' - (sn s + added) = ne - sn s /\ (0 <= added -> length rows' = (length rows + Z.to_nat added)%nat)
+      | Sparse _ => False
+      end).
+Proof.
+  intros s a t k d size. split; [|split].
+  - intros E. subst size. reflexivity.
+  - intros s' E Ln. unfold step in E. simpl in E. unfold do_create_sized in E.
+    change (attrs (tick s)) with (attrs s) in E. rewrite Ln in E.
+    destruct (mk_default (hp (tick s)) t k d) as [e|[h' df]]; inversion E; subst. simpl. rewrite lookup_put_same.
+    do 3 eexists. split; [reflexivity|]. unfold new_storage_n, dense_init_n_elem, dense_init_rows, create_dense_n_elem_sized. simpl.
+    split; [reflexivity|]. apply repeat_length.
+  - intros at_ ne st rows added St. unfold expand_attr. rewrite St. simpl.
+    unfold dense_expand_n_elem, dense_expand_rows. split; [lia|]. intros _. rewrite app_length, repeat_length. reflexivity.
+Qed.
+
+(* ------------------------------------------------------------------ register_array_as_attribute *)
+Theorem register_array : forall s a t k rows d s', reachable s -> op_ok (Register a t k rows d) ->
+  step s (Register a t k rows d) = (s', OOk) -> lookup a (attrs s) = None ->
+  Z.of_nat (length rows) = sn s /\ 0 < sn s /\
+  (forall j, 0 <= j < sn s -> rd s' a j = Some (nth (Z.to_nat j) rows [])) /\
+  (forall b j, b <> a -> rd s' b j = rd s b j) /\ sn s' = sn s.
+Proof.
+  intros s a t k rows d s' Hr Ho E Ln. pose proof (reachable_inv s Hr) as Hi.
+  pose proof (inv_step s _ Hi Ho) as Hi'. rewrite E in Hi'. simpl in Hi'.
+  unfold step in E. simpl in E. unfold do_register in E. change (attrs (tick s)) with (attrs s) in E.
+  change (sn (tick s)) with (sn s) in E. change (hp (tick s)) with (hp s) in E. rewrite Ln in E.
+  destruct (negb (Z.of_nat (length rows) =? sn s)) eqn:Sh; [discriminate|].
+  destruct (sn s =? 0) eqn:Z0; [discriminate|]. destruct Hi as [N0 [H1 _]].
+  split; [lia|]. split; [lia|].
+  destruct (mk_default (hp s) t k d) as [e|[h' df]] eqn:M; inversion E; subst s'; clear E.
+  destruct Hi' as [_ [I1 _]]. simpl in I1. pose proof (I1 a _ (lookup_put_same _ _ _)) as Ok.
+  split; [|split; [|reflexivity]].
+  - intros j Hj. unfold rd. simpl. rewrite lookup_put_same. erewrite rd_dense; [|exact Ok|reflexivity|exact Hj]. reflexivity.
+  - intros b j Nb. unfold rd. simpl. rewrite lookup_put_other by exact Nb.
+    destruct (lookup b (attrs s)) as [bt|] eqn:Lb; [|reflexivity].
+    unfold mk_default in M. destruct d as [c|].
+    + destruct (kind_of c); [|discriminate]. destruct (default_type_bad _ _); inversion M; subst. reflexivity.
+    + destruct (k =? 1); inversion M; subst; [reflexivity|]. eapply rd_attr_app. eapply H1; eauto.
+Qed.
+
+(* ------------------------------------------------------------------ appending a list with an item that cannot be unpacked *)
+(* (CornerDataContainer): the whole append is refused and nothing changes: container and attributes stay aligned *)
+Theorem refused_append_changes_nothing : forall s m s' w,
+  corner s = true -> step s (ExtendListBad m) = (s', w) ->
+  w = OGrowErr EUnpack (sn s) (lens (attrs s)) /\ sn s' = sn s /\ attrs s' = attrs s /\ hp s' = hp s.
+Proof.
+  intros s m s' w C E. unfold step in E. simpl in E. change (corner (tick s)) with (corner s) in E. rewrite C in E.
+  inversion E; subst. auto.
+Qed.
